@@ -72,7 +72,7 @@ def _first_char_of_delimiter(b, n):
 def aud_key(site):
     """Site signatures are compared modulo binding mode: unary `*`, `&`, `&mut` are dropped (`removed_pos[*pair_idx]` and
     `removed_pos[pair_idx]` are the same operation on the same value)."""
-    s = re.sub(r"(?<![\w)\]\s])\*(?=[\w(])", "", site)
+    s = re.sub(r"(?<![\w)\]])\*(?=[\w(])", "", site)       # unary `*x` (a product is rendered `a * b`, with a space after the star)
     s = re.sub(r"(?<![\w)\]&])&(?:mut )?(?=[\w(*])", "", s)
     return s
 
@@ -262,6 +262,7 @@ def run(ctx, res):
             res.trusted.append("AUD %s | %s: %s [premises: %s]" % (e["fn"], e["site"], e["invariant"], ", ".join(e["premises"])))
     res.extra["premises"] = {k: {"ok": v[0], "detail": v[1]} for k, v in premise_cache.items()}
     no_unsafe(ctx, res, bodies)
+    recursion_depth(ctx, res, bodies)
     for o in ledger[:6]:
         res.samples.append(o)
 
@@ -559,3 +560,62 @@ def no_unsafe(ctx, res, bodies):
                 res.add(Finding("C01.unsafe", fshort(b), "unchecked:" + (T.cname(x) or ""), "call to an unchecked function", loc=T.loc(x)))
     if n == 0:
         res.holds("C01.unsafe", "-", "no-unsafe", "no user-written unsafe / unchecked call in %d functions" % len(bodies))
+
+
+def recursion_depth(ctx, res, bodies):
+    """"never ... abort": a recursion whose depth grows with the size of the input overflows the stack (an abort that no
+    handler can catch).  Every cycle of the call graph among the reachable functions is classified by what its recursive
+    call is applied to:
+      * a *literal base state* whose own arm does not recurse           -> depth 2 (tokenizer::get_state);
+      * the `children` of the item being visited (structural recursion over the tree that the parser built) -> bounded by
+        the depth the parser itself reached - reported at the parser, not again;
+      * anything else (the parser itself: one level per opening tag that is not yet closed, flat sequences included)
+        -> input-proportional: reported."""
+    P = ctx.lib
+    by_path = {b["def_path"]: b for b in bodies}
+    graph = {p: {c for c, _ in P.callees(b) if c in by_path} for p, b in by_path.items()}
+
+    def reach(a):
+        seen, st = set(), list(graph.get(a, ()))
+        while st:
+            x = st.pop()
+            if x not in seen:
+                seen.add(x)
+                st += list(graph.get(x, ()))
+        return seen
+    rec = sorted(p for p in graph if p in reach(p))
+    res.floor("C01.REC", "recursive functions among the reachable ones", len(rec), 1)
+    for p in rec:
+        b = by_path[p]
+        fn = fshort(b)
+        calls = [n for n in T.nodes(b["tree"]) if n.get("k") in ("call", "mcall") and T.callee(n) == p]
+        if not calls or p not in graph[p]:
+            res.add(Finding("C01.REC", fn, "recursion", "mutual recursion through %s: depth not classified" % sorted(graph[p] & set(rec))[:3], loc=T.loc(b["tree"])))
+            continue
+        kinds = set()
+        for c in calls:
+            args = list(c.get("args", []))
+            txt = [T.render(T.peel_ref(a)) for a in args]
+            if any(re.search(r"(^|[^\w])(\w+)\.children$", t) for t in txt):
+                kinds.add("children")
+            elif any(T.peel(a).get("k") == "path" and (T.peel(a).get("res") or {}).get("dk") in ("Ctor", "Variant") or
+                     ((T.peel(a).get("res") or {}).get("r") == "def" and "State::" in T.render(T.peel(a))) for a in args):
+                # the state argument is a unit variant: its arm must not recurse
+                base = [T.render(T.peel(a)).split("::")[-1] for a in args if "State::" in T.render(T.peel(a))]
+                arms_ok = True
+                for m in T.nodes(b["tree"], "match"):
+                    for arm in m["arms"]:
+                        if any(T.rpat(arm["pat"]).split("::")[-1].startswith(bn) for bn in base):
+                            if any(x.get("k") in ("call", "mcall") and T.callee(x) == p for x in T.nodes(arm["body"])):
+                                arms_ok = False
+                kinds.add("base-state" if arms_ok else "other")
+            else:
+                kinds.add("other")
+        if kinds == {"base-state"}:
+            res.holds("C01.REC", fn, "recursion", "re-dispatch on a literal base state whose arm does not recurse: depth 2")
+        elif kinds == {"children"}:
+            res.holds("C01.REC", fn, "recursion", "structural recursion over `.children` of the parsed tree: not deeper than the parser went")
+        else:
+            res.add(Finding("C01.REC", fn, "recursion", "the recursion depth of %s grows with the input (one stack frame per opening tag that is not yet closed, also "
+                            "for a flat sequence of unclosed or stray tags): a large enough document overflows the stack and the process aborts" % fn,
+                            loc=T.loc(calls[0])))
